@@ -27,14 +27,49 @@ func uvarintFromBytes(p []byte) (uint64, int) {
 	return uvarint.Decode(p)
 }
 
+// uvarintLen gives the encoded length of a sqlite4 uvarint from its first byte.
+func uvarintLen(b0 byte) int {
+	switch {
+	case b0 <= 240:
+		return 1
+	case b0 <= 248:
+		return 2
+	default:
+		return int(b0) - 246
+	}
+}
+
 func uvarintFromBuf(r *bufio.Reader) (uint64, error) {
-	p, err := r.Peek(9)
-	if err != nil && err != io.EOF {
+	var b [9]byte
+	_, err := io.ReadFull(r, b[:1])
+	if err != nil {
 		return 0, err
 	}
-	x, n := uvarintFromBytes(p)
-	_, err = r.Discard(n)
-	return x, err
+	n := uvarintLen(b[0])
+	_, err = io.ReadFull(r, b[1:n])
+	if err != nil {
+		return 0, unexpectedEOF(err)
+	}
+	x, _ := uvarintFromBytes(b[:n])
+	return x, nil
+}
+
+// bytesFromBuf reads exactly n bytes.
+func bytesFromBuf(r *bufio.Reader, n uint64) ([]byte, error) {
+	p := make([]byte, n)
+	_, err := io.ReadFull(r, p)
+	if err != nil {
+		return nil, unexpectedEOF(err)
+	}
+	return p, nil
+}
+
+// unexpectedEOF is for reads which started in the middle of some entity.
+func unexpectedEOF(err error) error {
+	if err == io.EOF {
+		return io.ErrUnexpectedEOF
+	}
+	return err
 }
 
 func varintToBytes(p []byte, x int64) int {
@@ -135,27 +170,37 @@ func valueFromBuf(r *bufio.Reader) (value, error) {
 
 	switch c := typecode(b[0]); c {
 	case typeINT:
-		p, _ := r.Peek(9)
-		x, i := varintFromBytes(p)
-		_, err = r.Discard(i)
-		return int(x), err
+		x, err := uvarintFromBuf(r)
+		if err != nil {
+			return nil, unexpectedEOF(err)
+		}
+		return int(u64ToI64(x)), nil
 
 	case typeFLOAT:
-		p, _ := r.Peek(8)
-		_, err = r.Discard(len(p))
-		return math.Float64frombits(stdbinary.BigEndian.Uint64(p)), err
+		var p [8]byte
+		_, err = io.ReadFull(r, p[:])
+		if err != nil {
+			return nil, unexpectedEOF(err)
+		}
+		return math.Float64frombits(stdbinary.BigEndian.Uint64(p[:])), nil
 
 	case typeSTR:
-		p, _ := r.Peek(9)
-		k, i := uvarintFromBytes(p)
-		r.Discard(i)
-		p, _ = r.Peek(int(k))
-		_, err = r.Discard(len(p))
-		return string(p), err
+		k, err := uvarintFromBuf(r)
+		if err != nil {
+			return nil, unexpectedEOF(err)
+		}
+		p, err := bytesFromBuf(r, k)
+		if err != nil {
+			return nil, err
+		}
+		return string(p), nil
 
 	case typeBOOL:
 		_, err = io.ReadFull(r, b[:1])
-		return b[0] != 0, err
+		if err != nil {
+			return nil, unexpectedEOF(err)
+		}
+		return b[0] != 0, nil
 
 	case typeNIL:
 		return nil, nil
